@@ -159,7 +159,12 @@ pub fn run_check(def: &'static CheckDef, thorough: bool, seed: u64, budget_s: f6
                     WATCH_RUN[wi].store(rs, Ordering::Relaxed);
                     WATCH_IDX[wi].store(i, Ordering::Relaxed);
                     let mut tape = Tape::record(rs);
+                    let t_run = WallInstant::now();
                     let out = run_scen(def, si, &mut tape, thorough, false);
+                    let ms = t_run.elapsed().as_millis() as u64;
+                    if ms >= 3000 && std::env::var_os("VERIF_SHOW_SLOW").is_some() {
+                        eprintln!("[slow] run {} (scenario {}) took {} ms: {}", i, def.scens[si].name, ms, out.cfg_desc);
+                    }
                     local.merge(&out.stats);
                     local.inc("runs");
                     let mut viol = out.viol;
